@@ -1,5 +1,7 @@
 import CfdpVerif.Model.World
 import CfdpVerif.Lemmas.Monad
+import CfdpVerif.Lemmas.InvDestQueue
+import CfdpVerif.Props.C15
 /-!
 # C10 — handlers fail only with protocol exceptions and only when the caller is at fault
 
@@ -47,5 +49,51 @@ theorem C10_source_rejected_pdu_changes_nothing (env : Source.Env) (pdu : Pdu) (
   have hd : s' = s := (source_admission_read_only env pdu).error_state h
   subst hd
   msimp [Source.stateMachine, h]
+
+/-! ### `UnretrievedPdusToBeSent` -/
+
+/-- **The receiver's packets-ready counter is the queue length, after every call sequence.**  So the
+three guards that raise `UnretrievedPdusToBeSent` (`_fsm_advancement_after_packets_were_sent` tests
+the queue, `cancel_request` and `_prepare_finished_pdu` test the counter) all mean: PDUs are really
+still queued. -/
+theorem C10_dest_counter_is_queue_length (env : Dest.Env) (calls : List C15.DCall) (s : Dest.DestSt)
+    (h : s.numReady = s.queue.length) :
+    (calls.foldl (fun s c => c.run env s) s).numReady = (calls.foldl (fun s c => c.run env s) s).queue.length := by
+  induction calls generalizing s with
+  | nil => exact h
+  | cons c cs ih =>
+    apply ih
+    cases c with
+    | sm pkt => exact Dest.Queue.stateMachine_q env pkt s h
+    | get => exact Dest.Queue.getNextPacket_q env s h
+    | cancel t => exact Dest.Queue.cancelRequest_q env t s h
+    | reset => exact Dest.Queue.reset_q env s h
+
+/-- the guard at the top of the receiver's state machine raises exactly when PDUs are queued, and
+then nothing at all has happened -/
+theorem C10_dest_unretrieved_guard (env : Dest.Env) (d : Dest.DestSt) :
+    (d.queue ≠ [] → Dest.fsmAdvancementAfterPacketsWereSent env d = .error .unretrievedPdus d) ∧
+    (d.queue = [] → d.step ≠ .SENDING_EOF_ACK_PDU →
+      Dest.fsmAdvancementAfterPacketsWereSent env d = .ok () d) := by
+  constructor
+  · intro h
+    have : d.queue.length > 0 := by cases hq : d.queue <;> simp_all
+    msimp [Dest.fsmAdvancementAfterPacketsWereSent, this]
+  · intro h hs
+    msimp [Dest.fsmAdvancementAfterPacketsWereSent, h, hs]
+
+/-- the sender's guard likewise -/
+theorem C10_source_unretrieved_guard (s : Source.SrcSt) (h : s.queue ≠ []) :
+    Source.fsmAdvancementAfterPacketsWereSent s = .error .unretrievedPdus s := by
+  have : s.queue.length > 0 := by cases hq : s.queue <;> simp_all
+  msimp [Source.fsmAdvancementAfterPacketsWereSent, this]
+
+/-- the library's own exception classes vs. the internal errors the property forbids -/
+theorem C10_exception_classes :
+    Err.isProtocol .unretrievedPdus = true ∧ Err.isProtocol .invalidPduDirection = true ∧
+    Err.isProtocol .invalidNakPdu = true ∧ Err.isProtocol .pduIgnoredForDest = true ∧
+    Err.isProtocol .assertionError = false ∧ Err.isProtocol .attributeError = false ∧
+    Err.isProtocol .typeError = false ∧ Err.isProtocol .keyError = false ∧
+    Err.isProtocol .valueError = false ∧ Err.isProtocol .structError = false := by decide
 
 end Cfdp.C10
